@@ -60,7 +60,15 @@ fn msg_stats(m: &Msg, depth: u64, out: &mut Out) {
 
 /// run the scenario on the implementation and add one case `<check> <case_env> <steps>`
 pub fn emit(out: &mut Out, sc: &Scenario, check: &str, extra_json: serde_json::Value, nontrivial: impl Fn(&Scenario, &[StepObs]) -> bool) -> Vec<StepObs> {
+    let _ = contract::wrapped::take_custom_reached();
     let obs = driver::run_scenario(sc);
+    let wtags: Vec<u64> = sc.codes.iter().filter(|c| c.wrapped).map(|c| c.tag).collect();
+    if !wtags.is_empty() {
+        // entries of codes registered through ContractWrapper::new_with_empty (contract::wrapped)
+        let calls = obs.iter().flat_map(|o| o.trace.iter()).filter(|e| matches!(e, Entry::Call { tag, .. } if wtags.contains(tag))).count();
+        out.stat("wrapped_calls", calls as u64);
+        out.stat("wrapped_custom_sub_reached", contract::wrapped::take_custom_reached());
+    }
     for (st, o) in sc.steps.iter().zip(obs.iter()) {
         out.stat(&format!("top_{}", outcome_class(&o.outcome)), 1);
         match &st.op {
